@@ -41,8 +41,14 @@ def run(chk, program, tier):
     later_none = [e for e in ex.events[wi:] if e[0] == 'return' and e[2] == NONE]
     chk.check(not later_none, 'DUMP-GUARD', 'write-after-filters', file=DEC, line=we[-1], func='_call_decode_function', expected='no filter return after the dump write', found=[e[-1] for e in later_none])
     arg = we[2][2][0] if we[2][2] else None
-    okt = arg is not None and arg[0] == 'binop' and arg[1] == '+' and arg[3] == C('\n') and arg[2][0] == 'call' and arg[2][1][0] == 'attr' and arg[2][1][2] == 'to_json' and not arg[2][2]
-    msgterm = arg[2][1][1] if okt else None
+    # <message>.to_json() followed by one newline: as a concatenation or as an f-string
+    jt = None
+    if arg is not None and arg[0] == 'binop' and arg[1] == '+' and arg[3] == C('\n'):
+        jt = arg[2]
+    elif arg is not None and arg[0] == 'fstr' and len(arg[1]) == 2 and arg[1][1] == C('\n') and arg[1][0][0] == 'fmt' and arg[1][0][2] == -1 and arg[1][0][3] is None:
+        jt = arg[1][0][1]
+    okt = jt is not None and jt[0] == 'call' and jt[1][0] == 'attr' and jt[1][2] == 'to_json' and not jt[2]
+    msgterm = jt[1][1] if okt else None
     rets = [e for e in ex.events if e[0] == 'return' and e[2] != NONE]
     chk.check(okt and rets and rets[-1][2] == msgterm, 'DUMP-TEXT', 'text', file=DEC, line=we[-1], func='_call_decode_function',
               expected='<returned message>.to_json() + "\\n"', found=show(arg) if arg else None)
